@@ -33,6 +33,24 @@ import LemoModel.GoSem
 namespace LemoModel.Evm
 open LemoModel
 
+/-- one memory operand range of an instruction (recovered by probing its `memorySize` function):
+    offset in stack slot `off`, size in stack slot `sizeSlot` or the constant `constSize` -/
+structure MemRange where
+  off : Nat
+  sizeSlot : Option Nat
+  constSize : Nat
+  deriving DecidableEq, Repr, Inhabited
+
+/-- the operand-dependent part of the gas other than memory expansion -/
+inductive Dyn where
+  | none
+  | words (slot perWord : Nat)   -- `perWord` gas per 32-byte word of the value in stack slot `slot`
+  | bytes (slot perByte : Nat)   -- `perByte` gas per byte of the value in stack slot `slot`
+  | exp                          -- ExpByte gas per byte of the exponent (slot 1)
+  | sstore                       -- SstoreSetGas instead of SstoreResetGas for (empty slot, non-zero value)
+  | suicide                      -- CreateBySuicide when the beneficiary is empty and the balance is not zero
+  deriving DecidableEq, Repr, Inhabited
+
 /-- one row of the jump table, as extracted from the real `operation` by the hook -/
 structure OpInfo where
   valid : Bool
@@ -46,9 +64,13 @@ structure OpInfo where
   hasMem : Bool       -- memorySize ≠ nil
   minGas : Nat        -- constant part of the gas function
   constGas : Bool     -- the gas function returned the same value on every probe (no memory function, no dynamic part)
+  mem : List MemRange -- memory operands
+  memGas2 : Nat       -- gas charged on top of minGas for memorySize = 64 bytes on empty memory (probe)
+  memGas1024 : Nat    -- … for memorySize = 32768 bytes
+  dyn : Dyn
   deriving DecidableEq, Repr, Inhabited
 
-def OpInfo.invalid : OpInfo := ⟨false, 0, 0, false, false, false, false, false, false, 0, false⟩
+def OpInfo.invalid : OpInfo := ⟨false, 0, 0, false, false, false, false, false, false, 0, false, [], 0, 0, .none⟩
 
 structure Params where
   callCreateDepth : Nat
@@ -68,6 +90,12 @@ structure Params where
   logBalance : Nat
   logCode : Nat
   logEvent : Nat
+  /-- memory gas: `memoryGas·words + words²/quadCoeffDiv`; sizes above `memLimit` are refused -/
+  memoryGas : Nat
+  quadCoeffDiv : Nat
+  memLimit : Nat
+  expByteGas : Nat
+  sstoreSetGas : Nat
   /-- addresses of the precompiles the code declares state-modifying (`precompileWritesState`) -/
   writingPre : List Nat
   /-- `RunPrecompiledContract` refuses a state-modifying precompile under readOnly
